@@ -1297,3 +1297,57 @@ theorem checkIndexList_invalid (stored nRows : Int) (il : List Int)
 
 
 end HdVerif.Ann
+
+namespace HdVerif.Ann
+open HdVerif HdVerif.Gen
+
+/-! ### call histories -/
+
+/-- states a parsed group can be in while it is being read with coordinate type `ct`: nothing decoded yet,
+or the decoded data cached under `ct` -/
+def ReadState {α : Type} (gt : String) (enc : Enc α) (ct : Int) (G : GData α) (g : Group α) : Prop :=
+  g.gtype = gt ∧ g.enc = enc ∧ (g.cache = none ∨ g.cache = some (ct, G))
+
+theorem getGraphicDataS_state {α : Type} (gt : String) (enc : Enc α) (ct : Int) (G : GData α)
+    (hdec : decode gt enc ct = .ok G) (g : Group α) (h : ReadState gt enc ct G g) :
+    ∃ g', getGraphicDataS g ct = .ok (G, g') ∧ ReadState gt enc ct G g' := by
+  obtain ⟨h1, h2, h3⟩ := h
+  rcases h3 with hc | hc
+  · refine ⟨{ g with cache := some (ct, G) }, ?_, h1, h2, Or.inr rfl⟩
+    simp [getGraphicDataS, hc, h1, h2, hdec]
+  · exact ⟨g, by simp [getGraphicDataS, hc], h1, h2, Or.inr hc⟩
+
+/-- one access: the answer does not depend on the state, and the state stays a read state -/
+theorem accessS_state {α : Type} (gt : String) (enc : Enc α) (ct : Int) (G : GData α)
+    (hdec : decode gt enc ct = .ok G) (g : Group α) (h : ReadState gt enc ct G g) (a : Access) :
+    (accessS g ct a).1 = (accessS { gtype := gt, enc := enc, cache := none } ct a).1 ∧
+    ReadState gt enc ct G (accessS g ct a).2 := by
+  obtain ⟨g', hg', hs'⟩ := getGraphicDataS_state gt enc ct G hdec g h
+  obtain ⟨g0, hg0, _⟩ := getGraphicDataS_state gt enc ct G hdec { gtype := gt, enc := enc, cache := none } ⟨rfl, rfl, Or.inl rfl⟩
+  cases a with
+  | whole => simp [accessS, hg', hg0, hs']
+  | nth k =>
+    simp only [accessS]
+    cases hci : coordIndex k with
+    | error e => exact ⟨rfl, h⟩
+    | ok i =>
+      simp only [hg', hg0]
+      by_cases hi : i < 0
+      · simp [hi, hs']
+      · simp only [hi, if_false]
+        cases G[i.toNat]? <;> simp [hs']
+
+/-- **the answers of any sequence of accesses are those of the same accesses made one by one on a freshly
+parsed object** -/
+theorem runHistory_independent {α : Type} (gt : String) (enc : Enc α) (ct : Int) (G : GData α)
+    (hdec : decode gt enc ct = .ok G) (accs : List Access) : ∀ (g : Group α), ReadState gt enc ct G g →
+    runHistory g ct accs = accs.map (fun a => (accessS { gtype := gt, enc := enc, cache := none } ct a).1) := by
+  induction accs with
+  | nil => intro g _; rfl
+  | cons a rest ih =>
+    intro g h
+    obtain ⟨h1, h2⟩ := accessS_state gt enc ct G hdec g h a
+    simp only [runHistory, List.map_cons, h1, ih _ h2]
+
+
+end HdVerif.Ann
